@@ -1,55 +1,231 @@
 /-
 Proofs for the intern-table model (Model/Intern.lean): invariant over all interleavings,
 growth, injectivity, linearization points.
+
+The per-instruction lemmas are in Proofs/InternStep.lean, the global invariant `Inv` in
+Proofs/InternInv.lean; here the theorems are read off.
 -/
 import CueVerif.Model.Intern
 import CueVerif.Proofs.LocksetMutex
+import CueVerif.Proofs.InternInv
 namespace CueVerif.Intern
 open CueVerif.Lockset
 
 theorem progs_wellLocked : ∀ p ∈ progs, wellLocked guard true p = true := by
   decide
 
+/-! ### the table only grows (needs no invariant) -/
+
+theorem step_grows {s s' : State} (hs : IStep s s') :
+    ∃ ext, s'.data.labels = s.data.labels ++ ext := by
+  cases hs with
+  | spawn p hp l0 hl => exact ⟨[], by simp⟩
+  | thread a t ha d' t' hn =>
+    rcases next_data sem _ _ t d' t' hn with ⟨hd, _⟩ | ⟨_, x, k, _, hd, _⟩
+    · exact ⟨[], by simp [hd]⟩
+    · obtain ⟨ext, he⟩ := (sem_acc_facts x k s.data t.loc).2.2.1
+      exact ⟨ext, by rw [← he, ← hd]⟩
+
+theorem steps_grows {s s' : State} (hs : Steps sem progs initL s s') :
+    ∃ ext, s'.data.labels = s.data.labels ++ ext := by
+  induction hs with
+  | refl => exact ⟨[], by simp⟩
+  | step _ h ih =>
+    obtain ⟨e1, h1⟩ := ih
+    obtain ⟨e2, h2⟩ := step_grows h
+    exact ⟨e1 ++ e2, by rw [h2, h1, List.append_assoc]⟩
+
+set_option linter.unusedVariables false in
 theorem grows (d0 : Tab) (hc : Consistent d0) (s s' : State)
     (hr : IRun d0 s) (hs : Steps sem progs initL s s') :
-    ∃ ext, s'.data.labels = s.data.labels ++ ext := by
-  sorry
+    ∃ ext, s'.data.labels = s.data.labels ++ ext :=
+  steps_grows hs
 
+theorem get_of_grows {ls ext : List Key} {i : Nat} {k : Key} (h : ls[i]? = some k) :
+    (ls ++ ext)[i]? = some k := by
+  rw [List.getElem?_append_left (List.getElem?_eq_some_iff.1 h).1]; exact h
+
+set_option linter.unusedVariables false in
 theorem never_reassigned (d0 : Tab) (hc : Consistent d0)
     (s s' : State) (hr : IRun d0 s)
     (hs : Steps sem progs initL s s') (i : Nat) (k : Key)
     (h : s.data.labels[i]? = some k) : s'.data.labels[i]? = some k := by
-  sorry
+  obtain ⟨ext, he⟩ := steps_grows hs
+  rw [he]; exact get_of_grows h
+
+/-! ### read off the invariant -/
 
 theorem nodup (d0 : Tab) (hc : Consistent d0) (s : State)
-    (hr : IRun d0 s) : s.data.labels.Nodup := by
-  sorry
+    (hr : IRun d0 s) : s.data.labels.Nodup :=
+  (Inv_run hc hr).C
 
 theorem result (d0 : Tab) (hc : Consistent d0) (s : State)
     (hr : IRun d0 s) (t : Th Loc) (ht : t ∈ s.ths)
     (hp : t.prog = getKeyProg) (hd : t.st = .done) :
-    s.data.labels[t.loc.p]? = some t.loc.s := by
-  sorry
+    s.data.labels[t.loc.p]? = some t.loc.s :=
+  (GK_done ((Inv_run hc hr).D t ht hp) hd).1.1
 
 theorem injective (d0 : Tab) (hc : Consistent d0) (s : State)
     (hr : IRun d0 s) (t u : Th Loc) (ht : t ∈ s.ths) (hu : u ∈ s.ths)
     (hpt : t.prog = getKeyProg) (hpu : u.prog = getKeyProg)
     (hdt : t.st = .done) (hdu : u.st = .done) :
     t.loc.s = u.loc.s ↔ t.loc.p = u.loc.p := by
-  sorry
+  have h1 := result d0 hc s hr t ht hpt hdt
+  have h2 := result d0 hc s hr u hu hpu hdu
+  constructor
+  · intro h
+    rw [h] at h1
+    exact nodup_get_inj (nodup d0 hc s hr) h1 h2
+  · intro h
+    rw [h, h2] at h1
+    exact (Option.some.inj h1).symm
 
 theorem consistent_quiescent (d0 : Tab) (hc : Consistent d0) (s : State)
     (hr : IRun d0 s) (hq : ∀ t ∈ s.ths, t.held.contains ("mutex", true) = false) :
     Consistent s.data := by
-  sorry
+  have inv := Inv_run hc hr
+  intro k i
+  refine ⟨inv.A k i, fun h => ?_⟩
+  rcases inv.B i k h with h | ⟨j, u, hj, hup, hust, hupc, _, _⟩
+  · exact h
+  · exfalso
+    have hm := List.mem_of_getElem? hj
+    have huW := (GK_run12 (inv.D u hm hup) hust hupc).1
+    have := hq u hm
+    rw [huW] at this
+    simp at this
 
+theorem returns_lin (d0 : Tab) (hc : Consistent d0) (s : State)
+    (hr : IRun d0 s) (t : Th Loc) (ht : t ∈ s.ths)
+    (hp : t.prog = getKeyProg) (hd : t.st = .done) :
+    t.loc.lin = some t.loc.p :=
+  (GK_done ((Inv_run hc hr).D t ht hp) hd).1.2
+
+/-! ### `IndexToString` of an existing index -/
+
+/-- state of an `IndexToString(i)` call relative to an entry `k` that exists: it has not
+read yet, or it has read `k` -/
+def NSOk (k : Key) (t : Th Loc) : Prop :=
+  (t.st = .run ∧ t.pc ≤ 1 ∧ t.loc.out = none) ∨ t.loc.out = some k
+
+theorem its_at0 : indexToStringProg[0]? = some (.acq "mutex" false) := rfl
+theorem its_at1 : indexToStringProg[1]? = some (.acc "labels" .index) := rfl
+
+theorem NSOk_next {fr : Lk → Bool → Bool} {d d' : Tab} {t t' : Th Loc} {k : Key}
+    (hp : t.prog = indexToStringProg) (hk : d.labels[t.loc.i]? = some k) (hok : NSOk k t)
+    (h : next sem fr d t = some (d', t')) : NSOk k t' := by
+  rcases hok with ⟨hst, hpc, hout⟩ | hout
+  · obtain ⟨prog, pc, held, dfr, st, loc⟩ := t
+    simp only at hp hst hpc hout hk
+    subst hp; subst hst
+    match pc, hpc, h with
+    | 0, _, h =>
+      simp only [next, its_at0] at h
+      split at h
+      · cases h; exact .inl ⟨rfl, Nat.le_refl 1, hout⟩
+      · cases h
+    | 1, _, h =>
+      simp only [next, its_at1, sem_index] at h
+      cases h
+      exact .inr hk
+  · rcases next_data sem fr d t d' t' h with ⟨_, hl⟩ | ⟨_, x, a, _, _, hl⟩
+    · exact .inr (by rw [hl]; exact hout)
+    · rcases (sem_acc_facts x a d t.loc).2.2.2 with ho | ho
+      · exact .inr (by rw [hl, ho]; exact hout)
+      · exact .inr (by rw [hl, ho]; exact hk)
+
+theorem next_loc_i {fr : Lk → Bool → Bool} {d d' : Tab} {t t' : Th Loc}
+    (h : next sem fr d t = some (d', t')) : t'.loc.i = t.loc.i := by
+  rcases next_data sem fr d t d' t' h with ⟨_, hl⟩ | ⟨_, x, a, _, _, hl⟩
+  · rw [hl]
+  · rw [hl]; exact (sem_acc_facts x a d t.loc).2.1
+
+/-- the invariant of `name_stable` along `Steps s s'` -/
+def NSInv (n i : Nat) (k : Key) (s' : State) : Prop :=
+  s'.data.labels[i]? = some k ∧
+  ∀ (j : Nat) (t : Th Loc), n ≤ j → s'.ths[j]? = some t → t.prog = indexToStringProg →
+    t.loc.i = i → NSOk k t
+
+theorem NSInv_step {n i : Nat} {k : Key} {s s' : State} (ih : NSInv n i k s)
+    (hs : IStep s s') : NSInv n i k s' := by
+  refine ⟨?_, ?_⟩
+  · obtain ⟨ext, he⟩ := step_grows hs
+    rw [he]; exact get_of_grows ih.1
+  · cases hs with
+    | spawn p hp l0 hl =>
+      intro j t hj ht hpt hti
+      change (s.ths ++ [Th.new p l0])[j]? = some t at ht
+      by_cases hlt : j < s.ths.length
+      · rw [List.getElem?_append_left hlt] at ht
+        exact ih.2 j t hj ht hpt hti
+      · rw [List.getElem?_append_right (Nat.le_of_not_lt hlt)] at ht
+        have hm := List.mem_of_getElem? ht
+        rw [List.mem_singleton] at hm
+        subst hm
+        exact .inl ⟨rfl, Nat.zero_le 1, hl.2.1⟩
+    | thread a u ha d' u' hn =>
+      intro j t hj ht hpt hti
+      change (s.ths.set a u')[j]? = some t at ht
+      by_cases haj : a = j
+      · subst haj
+        rw [List.getElem?_set_self (List.getElem?_eq_some_iff.1 ha).1] at ht
+        cases ht
+        have hpu : u.prog = indexToStringProg := (next_prog _ _ _ _ _ _ hn).symm.trans hpt
+        have hiu : u.loc.i = i := (next_loc_i hn).symm.trans hti
+        exact NSOk_next hpu (by rw [hiu]; exact ih.1) (ih.2 a u hj ha hpu hiu) hn
+      · rw [List.getElem?_set_ne haj] at ht
+        exact ih.2 j t hj ht hpt hti
+
+theorem steps_NSInv {i : Nat} {k : Key} {s s' : State} (hk : s.data.labels[i]? = some k)
+    (hs : Steps sem progs initL s s') : NSInv s.ths.length i k s' := by
+  induction hs with
+  | refl =>
+    refine ⟨hk, ?_⟩
+    intro j t hj ht
+    rw [List.getElem?_eq_none hj] at ht
+    cases ht
+  | step _ h ih => exact NSInv_step ih h
+
+set_option linter.unusedVariables false in
 theorem name_stable (d0 : Tab) (hc : Consistent d0) (s s' : State)
     (hr : IRun d0 s) (i : Nat) (k : Key) (hk : s.data.labels[i]? = some k)
     (hs : Steps sem progs initL s s')
     (j : Nat) (t : Th Loc) (hj : s.ths.length ≤ j) (ht : s'.ths[j]? = some t)
     (hp : t.prog = indexToStringProg) (hi : t.loc.i = i) (hd : t.st = .done) :
     t.loc.out = some k := by
-  sorry
+  have hinv := steps_NSInv hk hs
+  rcases hinv.2 j t hj ht hp hi with ⟨hst, _, _⟩ | h
+  · rw [hd] at hst; cases hst
+  · exact h
+
+/-! ### linearization points -/
+
+theorem idxOf_of_get {ls : List Key} (hn : ls.Nodup) {r : Nat} {k : Key}
+    (h : ls[r]? = some k) : InternSpec.idxOf? ls k = some r := by
+  induction ls generalizing r with
+  | nil => simp at h
+  | cons x rest ih =>
+    rw [List.nodup_cons] at hn
+    rw [InternSpec.idxOf?]
+    cases r with
+    | zero =>
+      simp only [List.getElem?_cons_zero, Option.some.injEq] at h
+      rw [if_pos h]
+    | succ n =>
+      simp only [List.getElem?_cons_succ] at h
+      have hne : ¬ x = k := by
+        rintro rfl
+        exact hn.1 (List.mem_of_getElem? h)
+      rw [if_neg hne, ih hn.2 h]
+      rfl
+
+theorem idxOf_none {ls : List Key} {k : Key} (h : k ∉ ls) : InternSpec.idxOf? ls k = none := by
+  induction ls with
+  | nil => rfl
+  | cons x rest ih =>
+    rw [List.mem_cons, not_or] at h
+    rw [InternSpec.idxOf?, if_neg (fun e => h.1 e.symm), ih h.2]
+    rfl
 
 theorem linearizable (d0 : Tab) (hc : Consistent d0)
     (s s' : State) (hr : IRun d0 s) (hst : IStep s s') :
@@ -59,12 +235,22 @@ theorem linearizable (d0 : Tab) (hc : Consistent d0)
        (t.prog = getKeyProg ∧ t.loc.lin = none ∧ t'.loc.s = t.loc.s ∧
         ∃ r, t'.loc.lin = some r ∧
           InternSpec.intern s.data.labels t.loc.s = (r, s'.data.labels)))) := by
-  sorry
-
-theorem returns_lin (d0 : Tab) (hc : Consistent d0) (s : State)
-    (hr : IRun d0 s) (t : Th Loc) (ht : t ∈ s.ths)
-    (hp : t.prog = getKeyProg) (hd : t.st = .done) :
-    t.loc.lin = some t.loc.p := by
-  sorry
+  have inv := Inv_run hc hr
+  have hmx := MX_run sem progs initL d0 s hr
+  cases hst with
+  | spawn p hp l0 hl => exact .inl ⟨Th.new p l0, rfl, hl.2.2, rfl⟩
+  | thread a t ha d' t' hn =>
+    refine .inr ⟨a, t, t', ha, rfl, ?_⟩
+    rcases inv.P t (List.mem_of_getElem? ha) with hp | hp
+    · have so := (Inv_gk inv hmx ha hp hn).2
+      rcases so.lin with h | ⟨hl, r, hr', h⟩
+      · exact .inl h
+      · refine .inr ⟨hp, hl, so.s, r, hr', ?_⟩
+        show InternSpec.intern s.data.labels t.loc.s = (r, d'.labels)
+        rcases h with ⟨hd, hg⟩ | ⟨rfl, hd, hnin⟩
+        · rw [InternSpec.intern, idxOf_of_get inv.C hg, hd]
+        · rw [InternSpec.intern, idxOf_none hnin, hd]
+    · obtain ⟨hd, hl⟩ := its_step hp hn
+      exact .inl ⟨hl, by rw [hd]⟩
 
 end CueVerif.Intern
